@@ -32,7 +32,12 @@ def r1_cell(chk: Check) -> None:
         for n in walk_body(f.node):
             if isinstance(n, ast.Assign) and any(isinstance(t, ast.Attribute) and t.attr == "filter_set" for t in n.targets):
                 if isinstance(n.value, ast.Name):
-                    cell_names.add(n.value.id)
+                    # a plain local copy of the cell (`current = filter_set`) stands for the cell
+                    src = n.value.id
+                    copies = [v for _s, v in assignments_to(f.node, src) if isinstance(v, ast.Name)]
+                    if len(copies) == 1 and len(assignments_to(f.node, src)) == 1:
+                        src = copies[0].id
+                    cell_names.add(src)
                     reg_sites.append((f, n))
                 else:
                     chk.undecided("C19.R1", f, norm(n), "hook.filter_set assigned from a non-name expression", f.loc(n))
@@ -111,8 +116,12 @@ def r1_cell(chk: Check) -> None:
             if isinstance(v, ast.Call) and isinstance(v.func, ast.Name) and v.func.id == "init_filter_set"
             for nid in g.nodes_of(s)
         ]
-        witness = g.path(src, [g.exit], avoid=rebinds) if src else None
-        construct = f"after {norm(site)}: rebind of `{cell}`"
+        # a complete path through this registration that never rebinds the cell (the rebind may come before or after
+        # the attribute write - what matters is that the next registration does not see this one's FilterSet)
+        after_ = g.path(src, [g.exit], avoid=rebinds) if src else None
+        before_ = g.path([g.entry], src, avoid=rebinds, edge_ok=lambda a, b, lbl: not lbl.startswith("exc:")) if src else None
+        witness = (before_ + after_[1:]) if (before_ is not None and after_ is not None) else None
+        construct = f"registration `{norm(site)[:40]}`: the cell `{cell}` is rebound on every path through it"
         if not src:
             chk.undecided("C19.R1", f, construct, "registration site not in CFG", f.loc(site))
         elif witness is None:
@@ -127,25 +136,45 @@ def r1_cell(chk: Check) -> None:
 
     # (c2) EVERY registration writes the filter-set attribute: the callable may carry one from an earlier registration
     #      (the attribute lives on the function object and unregister() never clears it)
+    # (c3) the cell is rebound BEFORE the dispatcher validates the hook (register_hook_with_name raises for an unknown
+    #      name / wrong arity / wrong scope): a rejected registration must not leave its filters to the next one
     for f in nested:
         regs = [c for c in body_calls(f) if last_attr(c) == "register_hook_with_name" and c.args and isinstance(c.args[0], ast.Name)]
         if not regs:
             continue
         g = cfg_of(f)
+        rebinds = [nid for s_, v in assignments_to(f.node, cell) if isinstance(v, ast.Call) and isinstance(v.func, ast.Name) and v.func.id == "init_filter_set" for nid in g.nodes_of(s_)]
         for c in regs:
             hv = c.args[0].id  # type: ignore[attr-defined]
-            writes = [nid for n_ in walk_body(f.node) if isinstance(n_, ast.Assign) and any(isinstance(t, ast.Attribute) and t.attr == "filter_set" and is_var(t.value, hv) for t in n_.targets) for nid in g.nodes_of(n_)]
-            construct = f"{hv}.filter_set is written on every path to register_hook_with_name({hv}, ...)"
+            st_ = stmt_of(c)
+            holders = {hv} | ({t.id for t in st_.targets if isinstance(t, ast.Name)} if isinstance(st_, ast.Assign) else set())
+            writes = [nid for n_ in walk_body(f.node) if isinstance(n_, ast.Assign) and any(isinstance(t, ast.Attribute) and t.attr == "filter_set" and isinstance(t.value, ast.Name) and t.value.id in holders for t in n_.targets) for nid in g.nodes_of(n_)]
+            construct = f"{hv}.filter_set is written on every path through this registration"
             if not writes:
                 chk.violation("C19.R1", f, construct, "the registered callable never receives this registration's filter set", f.loc(c))
-                continue
-            w = g.path([g.entry], g.stmt_nodes_containing(c), avoid=writes, edge_ok=lambda a, b, lbl: not lbl.startswith("exc:"))
-            if w is None:
-                chk.ok("C19.R1", f, construct, "", f.loc(c))
             else:
-                chk.violation("C19.R1", f, construct,
-                              "on some path the callable is registered WITHOUT its filter_set attribute being written: a function that was registered with apply_to/skip_for before keeps that old filter set, so a later UNFILTERED registration of it is still skipped for the operations the old filter excluded",
-                              f.loc(c), g.describe_path(w, mod.relpath))
+                normal = lambda a, b, lbl: not lbl.startswith("exc:")  # noqa: E731
+                before = g.path([g.entry], g.stmt_nodes_containing(c), avoid=writes, edge_ok=normal)
+                after = g.path(g.stmt_nodes_containing(c), [g.exit], avoid=writes, edge_ok=normal)
+                # a complete normal path through this registration that never writes the attribute
+                w = (before + after[1:]) if (before is not None and after is not None) else None
+                if w is None:
+                    chk.ok("C19.R1", f, construct, "", f.loc(c))
+                else:
+                    chk.violation("C19.R1", f, construct,
+                                  "on some path the callable is registered WITHOUT its filter_set attribute being written: a function that was registered with apply_to/skip_for before keeps that old filter set, so a later UNFILTERED registration of it is still skipped for the operations the old filter excluded",
+                                  f.loc(c), g.describe_path(w, mod.relpath))
+            construct = f"the cell `{cell}` is rebound before register_hook_with_name({hv}, ...) can reject the hook"
+            if not rebinds:
+                chk.undecided("C19.R1", f, construct, "no rebind of the cell in this function", f.loc(c))
+            else:
+                w = g.path([g.entry], g.stmt_nodes_containing(c), avoid=rebinds, edge_ok=lambda a, b, lbl: not lbl.startswith("exc:"))
+                if w is None:
+                    chk.ok("C19.R1", f, construct, "", f.loc(c))
+                else:
+                    chk.violation("C19.R1", f, construct,
+                                  "register_hook_with_name validates the hook and raises (unknown hook name, wrong signature, wrong scope) BEFORE the pending apply_to/skip_for state is reset: the rejected registration's filters are silently inherited by the next hook registered on this dispatcher",
+                                  f.loc(c), g.describe_path(w, mod.relpath))
 
     # (d) what `return register` hands out starts with a FilterSet produced by init_filter_set(register)
     outer_assigns = [(s, v) for s, v in assignments_to(outer.node, cell)]
